@@ -504,6 +504,18 @@ def check_c14(cfg, world, tr, acc):
               'close = %r' % (d, val, rec['cash'], rec['held'], float(want)))
     acc.count('C14:equity_points_checked', len(want_dates))
     # allocation table: forward fill of the latest rebalance row onto the equity dates
+    for r in tr.pcm:
+        # the row recorded at a rebalance carries the weights of that rebalance: the alpha model's value for every asset
+        # it named, 0.0 for every other asset of the universe or still held
+        if r['row'] is None or r.get('alpha') is None:
+            continue
+        full = set(r['held']) | set(r['universe']) | set(r['alpha'])
+        want_row = {a: r['alpha'].get(a, 0.0) for a in full}
+        got_row = {k: v for k, v in r['row'].items() if k != 'Date'}
+        if got_row != want_row:
+            V('C14', 'allocation-row-weights', 'the allocation recorded at %s is %s, the weights of that rebalance are %s'
+              % (r['dt'], got_row, want_row))
+        acc.count('C14:allocation_rows_against_weights')
     rows = [r['row'] for r in tr.pcm if r['row'] is not None]
     if rows:
         ta = sess.target_allocations
